@@ -277,6 +277,119 @@ def signature(variant, what):
     return None
 
 
+
+# --------------------------------------------------------------------------------------------------
+# step correspondence: LV.Model.FeldmanIter (iterator object on top of LV.Model.Feldman) against the real iterators
+
+STEP_WHAT = ("LV.Model.FeldmanIter vs the iterators of cds::intrusive::FeldmanHashSet<HP> (iterator_base::forward / backward incl. re-read of "
+             "a converting slot and of a slot changed under protect, operator*, do_erase_at incl. the unlink fall-back; "
+             "cds/intrusive/impl/feldman_hashset.h) together with insert / update / erase / contains of LV.Model.Feldman")
+
+
+def gen_step_iter(rng, n):
+    """cfg = [loop fuel, head bits, array bits, hashes of keys 0..5]; at least one thread iterates (20 forward / 21 reverse,
+    second number: key whose element is erased through erase_at, 99 = none) while the others insert / update / erase"""
+    cases = []
+    for i in range(n):
+        nthreads = 2 if rng.chance(2, 3) else 3
+        hb, ab = (4, 2) if rng.chance(3, 4) else rng.choice([(4, 4), (6, 2), (5, 3)])
+        hs = rng.choice(C14.FHASH)
+        nkeys = 2 + rng.below(4)
+        keys = []
+        while len(keys) < nkeys:
+            k = rng.below(6)
+            if k not in keys:
+                keys.append(k)
+        threads = []
+        niter = 1 if rng.chance(3, 4) else 2
+        for t in range(nthreads):
+            ops = []
+            if t < niter:
+                for _ in range(rng.below(3)):
+                    ops.append([1, rng.choice(keys)])
+                for _ in range(1 + rng.below(2)):
+                    ops.append([20 if rng.chance(2, 3) else 21, rng.choice(keys) if rng.chance(1, 2) else 99])
+            else:
+                for _ in range(1 + rng.below(5)):
+                    r = rng.below(100)
+                    code = 1 if r < 50 else (3 if r < 65 else (4 if r < 70 else (7 if r < 92 else 13)))
+                    ops.append([code, rng.choice(keys)])
+            threads.append(ops)
+        cases.append({"id": "i%d" % i, "cfg": [400, hb, ab] + hs, "threads": threads, "sched": C14.gen_sched(rng, nthreads, rng.below(4))})
+    return cases
+
+
+def step_stage(ctx, n):
+    src = os.path.join(HDIR, "step_feldman_iter.cpp")
+    if not os.path.exists(src) or not os.path.exists(os.path.join(vcheck.COQ, "Extract", "Extract_FeldmanIter.v")):
+        return None, []
+    model = conc_check.build_model(ctx, "Extract_FeldmanIter.v", tag="model_feldman_iter")
+    impl = None
+    for attempt in range(3):
+        try:
+            impl = vcheck.cxx_build(src, os.path.join(ctx.work, "step", "step_feldman_iter"), hook=True, extra=("-I" + HDIR, "-I" + C14.HDIR))
+            break
+        except vcheck.BuildError as e:
+            if "libcds.a" not in str(e) or attempt == 2:
+                raise
+    rng = vcheck.SplitMix64(ctx.seed * 131 + 19)
+    cases = gen_step_iter(rng, n)
+    for f in sorted(glob.glob(os.path.join(vcheck.VERIF, "corpus", "C19", "step_*.json"))):
+        try:
+            c = json.load(open(f)).get("case")
+            if c:
+                cases.append(dict(c, id="corpus_" + os.path.basename(f)[:-5]))
+        except Exception:
+            pass
+    chunks = [cases[j::8] for j in range(8)]
+
+    def one(j):
+        if not chunks[j]:
+            return None
+        return conc_check.run_both(ctx, model, impl, chunks[j], tag="step_iter_%d" % j, fuel=200000)
+    with ThreadPoolExecutor(max_workers=8) as ex:
+        outs = list(ex.map(one, range(8)))
+    st = {"cases": len(cases), "agree": 0, "diverged": 0, "model_out_of_fuel": 0, "impl_steps_compared": 0, "visits": 0, "erase_at": 0,
+          "erase_at_false": 0, "erase_at_unlink_path": 0, "monitor_bad": 0, "modelled": STEP_WHAT}
+    divs = []
+    for j, o in enumerate(outs):
+        if o is None:
+            continue
+        rc1, ml, rc2, il, raw = o
+        for c in chunks[j]:
+            m = ml.get(c["id"]); i = il.get(c["id"])
+            if m is None or i is None:
+                st["diverged"] += 1
+                divs.append((c, {"index": -1, "model": "<no output>" if m is None else "ok", "impl": "<no output>" if i is None else "ok", "prefix": []}))
+                continue
+            st["impl_steps_compared"] += len(i["lines"])
+            inwin = {}
+            for l in i["lines"]:
+                t = l.split(" ")
+                if len(t) >= 2 and t[1] == "faa" and inwin.get(t[0]):
+                    inwin[t[0]] = 2          # a hazard publication inside erase_at: the unlink fall-back ran
+                if len(t) >= 5 and t[1] == "ev" and t[2] == "visit":
+                    inwin[t[0]] = 1
+                    st["visits"] += 1
+                    if t[4] != "0":
+                        st["monitor_bad"] += 1
+                        ctx.violation("iterator of the real FeldmanHashSet exposes a disposed element (step harness)", {"case": c, "impl_log": i["lines"]})
+                if len(t) >= 4 and t[1] == "ev" and t[2] == "erased":
+                    st["erase_at"] += 1
+                    st["erase_at_false"] += 1 if t[3] == "0" else 0
+                    st["erase_at_unlink_path"] += 1 if inwin.get(t[0]) == 2 else 0
+                    inwin[t[0]] = 0
+            d = conc_check.compare(m, i)
+            if d is not None and "outoffuel" in d["model"]:
+                st["model_out_of_fuel"] += 1
+                continue
+            if d is not None:
+                st["diverged"] += 1
+                divs.append((c, d))
+            else:
+                st["agree"] += 1
+    return st, divs
+
 def run(ctx):
     srcs = C14.shard_filter(sorted(glob.glob(os.path.join(HDIR, "tu_*.cpp"))))
     if ctx.replay:
@@ -329,6 +442,14 @@ def run(ctx):
         nbad += judge(ctx, name, cases, rc, logs, tail, stats)
     ncases = sum(len(c) for c in allcases.values())
     ctx.log("%d cases over %d variants, %d bad, %.1fs" % (ncases, len(stats), nbad, time.time() - t0))
+    t1 = time.time()
+    sst, sdivs = step_stage(ctx, 4000 if ctx.thorough() else 800)
+    if sst is not None:
+        ctx.log("step correspondence (iterators): %d agree, %d diverged, %d model out of fuel, %.1fs" % (sst["agree"], sst["diverged"], sst["model_out_of_fuel"], time.time() - t1))
+        if sdivs and not sst["monitor_bad"]:
+            c, d = sdivs[0]
+            ctx.violation("step correspondence between the Feldman iterator model and the real iterators no longer holds",
+                          {"correspondence": STEP_WHAT, "case": c, "first_divergence": d, "diverged_cases": len(sdivs)}, no_input=True)
     if res is not None and not res.ok:
         ctx.violation("Coq obligations of C19 do not check: %s" % (res.failed[:2],), {"theorem": [f[2] for f in res.failed], "errors": res.failed[:3]}, no_input=True)
     ctx.coverage.update({
@@ -339,6 +460,8 @@ def run(ctx):
         "traces_validated_against_impl": sum(s.get("ok", 0) for s in stats.values()),
         "samples": [allcases[n][len(allcases[n]) // 2] for n in sorted(allcases)][:2],
     })
+    if sst is not None:
+        ctx.coverage["step_correspondence"] = {"feldman_iter": sst}
     if "obligations" not in ctx.coverage:
         ctx.coverage.update({"obligations": 0, "discharged": 0, "checker_cmd": "n/a (implementation-side monitor only)"})
     return ctx.finish(vcheck.STD_TRUSTED + ["hook layer: khizmax_libcds_verif::atomic<T>, baton scheduler (hooks/include)", "harness/C19 log format and checks/C19.py monitor"],
